@@ -175,6 +175,24 @@ def check_graph(ctx, res, drv, adj, pending):
             pending.append((f"stab.s2g {su.stab_args(st2)}", dict(inp, stab=su.stab_args(st2), impl=("err", err_class(e))), "stabilizer_to_graph:model"))
             res.violation(f"stabilizer_to_graph:raises:{err_class(e)}", f"stabilizer_to_graph raised on a generating set of |G>: {str(e)[:80]}",
                           input=dict(inp, stab=su.stab_args(st2)))
+    # a generating set of a state that is NOT |G> (one sign flipped): stabilizer_to_graph(validate=True) must not return a graph for it
+    if n >= 1:
+        from graphiq.backends.stabilizer.tableau import StabilizerTableau
+
+        st3 = su.regauge_stab(graph_stab(adj), ctx.rng)
+        ph = np.asarray(st3.phase).astype(int).copy()
+        ph[ctx.rng.randrange(n)] ^= 1
+        st3 = StabilizerTableau(np.asarray(st3.table).astype(int), ph)
+        inp3 = dict(inp, stab=su.stab_args(st3), case="sign-flipped")
+        try:
+            out = rc.stabilizer_to_graph(st3.copy())
+            g3 = adj_of(out[0][1], n)
+            pending.append((f"stab.s2g {su.stab_args(st3)}", dict(inp3, impl=("ok", tu.bits(g3))), "stabilizer_to_graph:model"))
+            if su.stab_canon_of(st3) != tu.span_canon(np.eye(n, dtype=int), g3, np.zeros(n, dtype=int)):
+                res.violation("stabilizer_to_graph:accepts-other-state", "stabilizer_to_graph(validate=True) returned a graph whose state is not the input state (a sign differs)",
+                              input=inp3, impl=tu.bits(g3))
+        except Exception as e:  # noqa: BLE001
+            pending.append((f"stab.s2g {su.stab_args(st3)}", dict(inp3, impl=("err", err_class(e))), "stabilizer_to_graph:model"))
     if adj.any():
         res.nontrivial("graph", inp["adjacency"])
 
